@@ -2,25 +2,39 @@
      - a bare needle_map.CompactMap (every Set/Delete/Get result + the final section structure),
      - a storage.NeedleMap over a temp .idx (Gets, counters, .idx bytes; then LoadCompactNeedleMap),
      - a storage.LevelDbNeedleMap (Gets, counters, .idx bytes; then reopened from the .idx alone),
-     - a storage.SortedFileNeedleMap generated from the NeedleMap's .idx (lookups, counters). *)
+     - a storage.SortedFileNeedleMap generated from the NeedleMap's .idx (lookups, counters, .sdx bytes),
+   the LevelDB and sorted-file kinds also reopened with their db / .sdx file kept (isLevelDbFresh /
+   isSortedFileFresh = true).  Two more shapes of case:
+     - [c_fill] = (base, step, n), n > 0: the bare CompactMap first receives the n ascending Puts
+       [fill_ops base step n] (n = the real section capacity 100000, or just below), then [c_ops];
+       the model starts from the closed form [fill_cm] (proof/NeedleMapFill.v: [fill_then_run_both]);
+       long lists are reported as (length, skipped prefix, digest of the prefix, rest);
+     - [c_long] = (base, step, n), n > 0: an index file head ++ n descending keys ++ tail written
+       directly (4095/4096/4097/8193... entries: the 4096-entry batches of reverseWalkIndexFile and
+       the 1024-row batches of WalkIndexFile), opened as LevelDB and sorted-file map. *)
 From Coq Require Import List NArith ZArith Bool.
 From SW Require Export base.Verdict model.NeedleMap.
 Import ListNotations.
 Local Open Scope N_scope.
 
 (* dump of one CompactSection: start, end, values[0..counter), overflow; entries (Key, offset, size) *)
-Definition isec := (N * N * list (N * N * Z) * list (N * N * Z))%type.
+(* a long list of entries: (length, number of leading entries not listed, digest of those, the rest) *)
+Definition clist := (N * N * N * list (N * N * Z))%type.
+Definition isec := (N * N * clist * list (N * N * Z))%type.
 
 (* typed constructors for the harness output: their argument scopes let cases.v write plain
    numerals (scope delimiters inside [a; b; ...] lists make Coq's parser very slow) *)
 Definition NV (k o : N) (s : Z) : nval := (k, o, s).
-Definition SEC (st en : N) (vs os : list (N * N * Z)) : isec := (st, en, vs, os).
+Definition CL (tot skip dg : N) (rest : list (N * N * Z)) : clist := (tot, skip, dg, rest).
+Definition SEC (st en : N) (vs : clist) (os : list (N * N * Z)) : isec := (st, en, vs, os).
+Definition EN (k o : N) (s : Z) : entry := {| e_key := k; e_off := o; e_size := s |}.
 Definition MET (d f db fb mx : N) : metric :=
   {| m_del := d; m_file := f; m_delb := db; m_fileb := fb; m_max := mx |}.
 
 Record case := {
   c_osz : N;                 (* types.OffsetSize of the harness build *)
   c_batch : N;               (* needle_map batch constant of the harness build *)
+  c_fill : N * N * N;        (* (base, step, n): the CompactMap runs fill_ops base step n ++ c_ops; n = 0: none *)
   c_ops : list op;
   c_probe : list N;          (* keys looked up at the end of every run *)
   (* oracle: the answers of the real willf/bloom filter (NewWithEstimates(entries, 0.001)) for the
@@ -28,8 +42,10 @@ Record case := {
   c_bloom_mem : list bool;
   c_bloom_ldb : list bool;
   (* bare CompactMap *)
-  i_cm : list res;
+  i_fill_bad : N;            (* how many of the n fill Sets did not return (0, 0) *)
+  i_cm : list res;           (* results of c_ops *)
   i_secs : list isec;
+  i_asc : clist;             (* CompactMap.AscendingVisit *)
   (* NeedleMap in memory *)
   i_mem_gets : list (option nval);     (* answers of the Get operations, in order *)
   i_mem_met : metric;
@@ -46,7 +62,26 @@ Record case := {
   i_ldb_look2 : list (option nval);
   (* SortedFileNeedleMap generated from the NeedleMap's .idx *)
   i_sf_met : metric;
-  i_sf_look : list (option nval)
+  i_sf_look : list (option nval);
+  i_sdx : N * N * list N;              (* the generated .sdx file *)
+  (* reopened with the db directory / the .sdx file kept and newer than the .idx *)
+  i_ldb_met3 : metric;
+  i_ldb_look3 : list (option nval);
+  i_sf_met3 : metric;
+  i_sf_look3 : list (option nval);
+  (* indexFileOffset of: NeedleMap after the run, reloaded; LevelDB after the run, regenerated,
+     kept; sorted-file generated, kept *)
+  i_offs : list N;
+  (* the long index file *)
+  c_long_head : list entry;
+  c_long : N * N * N;
+  c_long_tail : list entry;
+  c_long_bloom : list bool;
+  i_long_ldb_met : metric;
+  i_long_ldb_look : list (option nval);
+  i_long_sf_met : metric;
+  i_long_sf_look : list (option nval);
+  i_long_sdx_len : N
 }.
 
 (* ---------- equality helpers ---------- *)
@@ -68,13 +103,29 @@ Definition res_eqb (a b : res) : bool :=
   | _, _ => false
   end.
 Definition ent_eqb (a b : N * N * Z) : bool := nval_eqb a b.
-Definition isec_eqb (a b : isec) : bool :=
-  let '(st, en, vs, os) := a in let '(st', en', vs', os') := b in
-  (st =? st') && (en =? en') && list_eqb ent_eqb vs vs' && list_eqb ent_eqb os os'.
+(* digest of a list of entries (the harness computes the same in uint64 arithmetic) *)
+Definition dg_p : N := 2147483647.
+Definition dg_step (h : N) (e : N * N * Z) : N :=
+  let '(k, o, s) := e in
+  (h * 1000003 + (k mod dg_p) * 7 + (o mod dg_p) * 13 + (Z.to_N (s mod 4294967296)%Z mod dg_p) * 17 + 1) mod dg_p.
+Definition clist_eqb (model : list (N * N * Z)) (impl : clist) : bool :=
+  let '(tot, skip, dg, rest) := impl in
+  (N.of_nat (length model) =? tot) &&
+  (fold_left dg_step (firstn (N.to_nat skip) model) 0 =? dg) &&
+  list_eqb ent_eqb (skipn (N.to_nat skip) model) rest.
 
 Definition dump_sval (v : sval) : N * N * Z := (sk v, sv_off v, ssz v).
-Definition dump_section (s : section) : isec :=
-  (s_start s, s_end s, map dump_sval (s_values s), map dump_sval (s_overflow s)).
+(* model section against reported section *)
+Definition sec_eqb (s : section) (b : isec) : bool :=
+  let '(st', en', vs', os') := b in
+  (s_start s =? st') && (s_end s =? en') && clist_eqb (map dump_sval (s_values s)) vs' &&
+  list_eqb ent_eqb (map dump_sval (s_overflow s)) os'.
+Fixpoint secs_eqb (cm : cmap) (l : list isec) : bool :=
+  match cm, l with
+  | [], [] => true
+  | s :: cm', b :: l' => sec_eqb s b && secs_eqb cm' l'
+  | _, _ => false
+  end.
 
 (* .idx files are reported one number per entry: the big-endian value of its 16/17 bytes
    (far fewer list elements for Coq to parse than one per byte); the byte count is checked too *)
@@ -99,16 +150,51 @@ Fixpoint gets_of {A} (l : list (option A)) : list A :=
   match l with [] => [] | Some x :: r => x :: gets_of r | None :: r => gets_of r end.
 
 (* ---------- model side ---------- *)
+(* where the bare CompactMap and the reference start: after the fill (empty when n = 0) *)
+Definition fill_fine (c : case) : bool :=
+  let '(b, st, n) := c_fill c in (n =? 0) || fill_ok (c_batch c) b st n.
+Definition start_cm (c : case) : cmap := let '(b, st, n) := c_fill c in fill_cm b st n.
+Definition start_ref (c : case) : rmap := let '(b, st, n) := c_fill c in fill_ref b st n.
+Definition long_es (c : case) : list entry :=
+  let '(b, st, n) := c_long c in
+  if n =? 0 then [] else long_entries (c_long_head c) b st n (c_long_tail c).
+Definition metric_is0 (m : metric) : bool := metric_eqb m metric0.
+Definition wf_entryb (osz : N) (e : entry) : bool :=
+  (e_key e <? two64) && (e_off e <? 256 ^ osz) && (-2147483648 <=? e_size e)%Z && (e_size e <? 2147483648)%Z.
+
+Definition corr_long (c : case) : bool :=
+  let es := long_es c in
+  match es with
+  | [] => metric_is0 (i_long_ldb_met c) && metric_is0 (i_long_sf_met c) &&
+          list_eqb onval_eqb [] (i_long_ldb_look c) && list_eqb onval_eqb [] (i_long_sf_look c) &&
+          (i_long_sdx_len c =? 0)
+  | _ =>
+      let osz := c_osz c in
+      let db := {| l_db := ldb_load_entries es; l_met := metric0; l_idx := [] |} in
+      let sorted := sorted_entries es in
+      let sdx := encode osz sorted in
+      let met := metric_entries_o es (c_long_bloom c) in
+      forallb (wf_entryb osz) es &&
+      metric_eqb met (i_long_ldb_met c) && metric_eqb met (i_long_sf_met c) &&
+      list_eqb onval_eqb (map (ldb_get db) (c_probe c)) (i_long_ldb_look c) &&
+      list_eqb onval_eqb (map (sf_get osz sdx) (c_probe c)) (i_long_sf_look c) &&
+      (N.of_nat (length sorted) * entry_size osz =? i_long_sdx_len c)
+  end.
+
 Definition corr (c : case) : bool :=
   let osz := c_osz c in let batch := c_batch c in let ops := c_ops c in
-  let '(rs, cm) := cm_run batch [] ops in
+  let '(rs, cm) := cm_run batch (start_cm c) ops in
   let '(mg, ms) := nm_run osz batch nm0 ops in
   let ml := do_loading osz batch (nm_idx ms) in
   let '(lg, ls) := ldb_run osz ldb0 ops in
   let ll := ldb_load osz (l_idx ls) in
+  let lf := ldb_reopen_fresh osz ls in
   let sdx := write_sorted_from_idx osz (nm_idx ms) in
+  let mlen := N.of_nat (length (nm_idx ms)) in let llen := N.of_nat (length (l_idx ls)) in
+  fill_fine c && (i_fill_bad c =? 0) &&
   list_eqb res_eqb rs (i_cm c) &&
-  list_eqb isec_eqb (map dump_section cm) (i_secs c) &&
+  secs_eqb cm (i_secs c) &&
+  clist_eqb (asc_visit cm) (i_asc c) &&
   list_eqb onval_eqb (gets_of mg) (i_mem_gets c) &&
   metric_eqb (nm_met ms) (i_mem_met c) &&
   idx_eqb osz (nm_idx ms) (i_mem_idx c) &&
@@ -122,7 +208,15 @@ Definition corr (c : case) : bool :=
   metric_eqb (metric_from_index_o osz (l_idx ls) (c_bloom_ldb c)) (i_ldb_met2 c) &&
   list_eqb onval_eqb (map (ldb_get ll) (c_probe c)) (i_ldb_look2 c) &&
   metric_eqb (metric_from_index_o osz (nm_idx ms) (c_bloom_mem c)) (i_sf_met c) &&
-  list_eqb onval_eqb (map (sf_get osz sdx) (c_probe c)) (i_sf_look c).
+  list_eqb onval_eqb (map (sf_get osz sdx) (c_probe c)) (i_sf_look c) &&
+  idx_eqb osz sdx (i_sdx c) &&
+  (* kept db: the entries as they were (deleted keys with their negated size); counters from the .idx *)
+  metric_eqb (metric_from_index_o osz (l_idx lf) (c_bloom_ldb c)) (i_ldb_met3 c) &&
+  list_eqb onval_eqb (map (ldb_get lf) (c_probe c)) (i_ldb_look3 c) &&
+  metric_eqb (metric_from_index_o osz (nm_idx ms) (c_bloom_mem c)) (i_sf_met3 c) &&
+  list_eqb onval_eqb (map (sf_get osz sdx) (c_probe c)) (i_sf_look3 c) &&
+  list_eqb N.eqb [mlen; mlen; llen; llen; llen; mlen; mlen] (i_offs c) &&
+  corr_long c.
 
 (* ---------- the property oracle on the implementation's observables ---------- *)
 (* the reference association list gives every answer; the counters a map should maintain are
@@ -133,38 +227,97 @@ Definition ref_lookup (r : rmap) (k : N) : option nval :=
 Fixpoint res_gets (l : list res) : list (option nval) :=
   match l with [] => [] | RGet v :: r => v :: res_gets r | _ :: r => res_gets r end.
 
-Definition prop (c : case) : bool :=
+(* the parts of the property, each on the implementation's observables only *)
+(* (a) every map kind answers like the reference, during and after the run; the kept LevelDB db
+   answers as before it was closed; the kept .sdx as the generated one; append offsets = file sizes *)
+Definition p_answers (c : case) : bool :=
   let ops := c_ops c in
+  let '(crs, _) := ref_run (start_ref c) ops in
   let '(rrs, rfin) := ref_run [] ops in
   let want := map (ref_lookup rfin) (c_probe c) in
-  (* every map kind answers like the reference, during and after the run *)
-  let answers :=
-    list_eqb res_eqb rrs (i_cm c) &&
-    list_eqb onval_eqb (res_gets rrs) (i_mem_gets c) &&
-    list_eqb onval_eqb (res_gets rrs) (i_ldb_gets c) &&
-    list_eqb onval_eqb want (i_mem_look c) &&
-    list_eqb onval_eqb want (i_ldb_look c) in
-  (* reload: only for histories a volume can issue *)
-  let reload :=
-    if disciplined ops && forallb (op_in_range (c_osz c)) ops then
-      metric_eqb (ref_metric ops) (i_mem_met c) &&
-      metric_eqb (ref_metric ops) (i_ldb_met c) &&
-      metric_eqb (i_mem_met c) (i_mem_met2 c) &&
-      list_eqb onval_eqb (i_mem_look c) (i_mem_look2 c) &&
-      metric_eqb (i_ldb_met c) (i_ldb_met2 c) &&
-      list_eqb onval_eqb (map live_view (i_ldb_look c)) (map live_view (i_ldb_look2 c)) &&
-      metric_eqb (i_mem_met c) (i_sf_met c) &&
-      list_eqb onval_eqb (map live_view want) (i_sf_look c)
-    else true in
-  answers && reload.
+  let '(mlen, _, _) := i_mem_idx c in let '(llen, _, _) := i_ldb_idx c in
+  (i_fill_bad c =? 0) &&
+  list_eqb res_eqb crs (i_cm c) &&
+  list_eqb onval_eqb (res_gets rrs) (i_mem_gets c) &&
+  list_eqb onval_eqb (res_gets rrs) (i_ldb_gets c) &&
+  list_eqb onval_eqb want (i_mem_look c) &&
+  list_eqb onval_eqb want (i_ldb_look c) &&
+  list_eqb onval_eqb (i_ldb_look c) (i_ldb_look3 c) &&
+  list_eqb onval_eqb (i_sf_look c) (i_sf_look3 c) &&
+  metric_eqb (i_sf_met c) (i_sf_met3 c) &&
+  metric_eqb (i_ldb_met2 c) (i_ldb_met3 c) &&
+  list_eqb N.eqb [mlen; mlen; llen; llen; llen; mlen; mlen] (i_offs c).
+(* AscendingVisit (only when everything is listed): ascending keys, exactly the reference's keys
+   with the reference's values *)
+Fixpoint asc_keys (l : list (N * N * Z)) : bool :=
+  match l with
+  | a :: ((b :: _) as r) => (fst (fst a) <? fst (fst b)) && asc_keys r
+  | _ => true
+  end.
+Definition p_visit (c : case) : bool :=
+  let '(tot, skip, _, l) := i_asc c in
+  if skip =? 0 then
+    let rfin := snd (ref_run (start_ref c) (c_ops c)) in
+    asc_keys l && (N.of_nat (length rfin) =? tot) &&
+    forallb (fun e => let '(k, o, sz) := e in onval_eqb (ref_lookup rfin k) (Some e)) l
+  else true.
+Definition is_volume_history (c : case) : bool :=
+  disciplined (c_ops c) && forallb (op_in_range (c_osz c)) (c_ops c).
+(* (b) running counters = reference counters *)
+Definition p_running (c : case) : bool :=
+  metric_eqb (ref_metric (c_ops c)) (i_mem_met c) && metric_eqb (ref_metric (c_ops c)) (i_ldb_met c).
+(* (c) reload: same map and counters after LoadCompactNeedleMap; the regenerated LevelDB map and
+   the sorted-file map serve the live entries *)
+Definition p_reload (c : case) : bool :=
+  let rfin := snd (ref_run [] (c_ops c)) in
+  let want := map (ref_lookup rfin) (c_probe c) in
+  metric_eqb (i_mem_met c) (i_mem_met2 c) &&
+  list_eqb onval_eqb (i_mem_look c) (i_mem_look2 c) &&
+  list_eqb onval_eqb (map live_view (i_ldb_look c)) (map live_view (i_ldb_look2 c)) &&
+  list_eqb onval_eqb (map live_view want) (i_sf_look c).
+(* (d) counters recomputed from the .idx = the running ones *)
+Definition p_recount (c : case) : bool :=
+  metric_eqb (i_ldb_met c) (i_ldb_met2 c) && metric_eqb (i_mem_met c) (i_sf_met c).
+(* what (d) is instead when keys are rewritten (proof/NeedleMapExact.v: reload_counters_exact):
+   FileCounter = keys ever put, DeletionCounter = puts + deletes - keys ever put, the rest equal *)
+Definition p_recount_formula (c : case) : bool :=
+  metric_eqb (reload_metric (c_ops c) (i_ldb_met c)) (i_ldb_met2 c) &&
+  metric_eqb (reload_metric (c_ops c) (i_mem_met c)) (i_sf_met c).
+(* (e) the long index file: both readers serve the last live entry of every key; every entry is
+   counted once, as a file or as a deletion; FileByteCounter = the valid sizes *)
+Definition p_long (c : case) : bool :=
+  let es := long_es c in
+  let want := match es with [] => [] | _ => map (replay_lookup es) (c_probe c) end in
+  let vsum := fold_left (fun a e => if size_is_valid (e_size e) then a + u64_of_size (e_size e) else a) es 0 in
+  let cnt m := (m_file m + m_del m =? N.of_nat (length es) mod two32) && (m_fileb m =? vsum mod two64) in
+  list_eqb onval_eqb want (i_long_ldb_look c) && list_eqb onval_eqb want (i_long_sf_look c) &&
+  cnt (i_long_ldb_met c) && cnt (i_long_sf_met c) && metric_eqb (i_long_ldb_met c) (i_long_sf_met c).
 
+Definition prop (c : case) : bool :=
+  p_answers c && p_visit c && p_long c &&
+  (if is_volume_history c then p_running c && p_reload c && p_recount c else true).
+
+(* A case is excused by a known finding only if everything the finding does not touch holds:
+     0 (empty Put): answers and running counters must hold;
+     2 (bloom false positive): everything but the recomputed counters must hold;
+     1 (key put twice): additionally the recomputed counters must be exactly [reload_metric]. *)
+Definition bloom_fp (c : case) : bool :=
+  trig_bloom_fp (c_osz c) (nm_idx (snd (nm_run (c_osz c) (c_batch c) nm0 (c_ops c)))) (c_bloom_mem c) ||
+  trig_bloom_fp (c_osz c) (l_idx (snd (ldb_run (c_osz c) ldb0 (c_ops c)))) (c_bloom_ldb c).
+Definition long_bloom_fp (c : case) : bool :=
+  match long_es c with
+  | [] => false
+  | es => negb (bool_list_eqb (c_long_bloom c) (exact_answers [] (rev es)))
+  end.
 Definition trig (c : case) : option N :=
   let ops := c_ops c in
-  if disciplined ops && trig_empty_put ops then Some 0
-  else if disciplined ops && trig_rewrite ops then Some 1
-  else if disciplined ops &&
-          (trig_bloom_fp (c_osz c) (nm_idx (snd (nm_run (c_osz c) (c_batch c) nm0 ops))) (c_bloom_mem c) ||
-           trig_bloom_fp (c_osz c) (l_idx (snd (ldb_run (c_osz c) ldb0 ops))) (c_bloom_ldb c)) then Some 2
+  if p_answers c && p_visit c && p_long c && is_volume_history c && p_running c then
+    if trig_empty_put ops then Some 0
+    else if p_reload c then
+      if bloom_fp c then Some 2
+      else if trig_rewrite ops && p_recount_formula c then Some 1
+      else None
+    else None
   else None.
 
 Definition nontrivial (c : case) : bool :=
